@@ -3,11 +3,13 @@
 package mlang
 
 import (
+	"encoding/json"
 	"fmt"
 	"strconv"
 	"strings"
 
 	"github.com/google/mtail/internal/runtime/compiler/ast"
+	"github.com/google/mtail/internal/runtime/compiler/parser"
 )
 
 // Dump renders the real compiler's AST in a canonical, position-free form:
@@ -118,4 +120,26 @@ func dump(b *strings.Builder, n ast.Node) {
 	default:
 		fmt.Fprintf(b, "(unknown %T)", n)
 	}
+}
+
+// binOp maps the model's operator spelling to the parser's token number (as printed by Dump).
+var binOp = map[string]int{"+": parser.PLUS, "-": parser.MINUS, "*": parser.MUL, "/": parser.DIV, "%": parser.MOD, "**": parser.POW}
+
+// DumpModel renders a MODEL expression tree (literals, $n, arithmetic operators) in the format of Dump.
+func DumpModel(n *Node) string {
+	switch n.N {
+	case "int":
+		var v int64
+		_ = json.Unmarshal(n.V, &v)
+		return "(int " + strconv.FormatInt(v, 10) + ")"
+	case "float":
+		var v [2]int64
+		_ = json.Unmarshal(n.V, &v)
+		return "(float " + strconv.FormatFloat(float64(v[0])/float64(v[1]), 'g', -1, 64) + ")"
+	case "cap":
+		return "(capref " + strconv.Itoa(n.G) + " false)"
+	case "bin":
+		return "(bin " + strconv.Itoa(binOp[n.Op]) + " " + DumpModel(n.L) + " " + DumpModel(n.R) + ")"
+	}
+	return "(model? " + n.N + ")"
 }
